@@ -295,12 +295,39 @@ pub fn exec_step(w: &mut World, ctx: &mut Ctx, st: &Step) -> StepResult {
             }
         };
     }
+    // A panic is C16's statement in general. Where the armed property itself promises a RESULT for the operation that
+    // panicked (C02: "the result has the same root digest", C13 / C08: "returns an envelope identical to the
+    // original", C07: the add / remove / wrap laws, C03: the elision, C05: the decoding), no result is a violation of
+    // that property too.
+    let promised: Option<&'static str> = {
+        let op = st.op.as_str();
+        let obscuring = matches!(op, "ElideSet" | "ElideWhole" | "Compress" | "CompressSubject" | "EncryptSubject" | "Encrypt");
+        if ctx.armed("C02") && obscuring {
+            Some("C02.operation-panics")
+        } else if ctx.armed("C03") && matches!(op, "ElideSet" | "ElideWhole" | "Unelide") {
+            Some("C03.operation-panics")
+        } else if ctx.armed("C13") && matches!(op, "Compress" | "CompressSubject" | "Uncompress" | "UncompressSubject") {
+            Some("C13.operation-panics")
+        } else if ctx.armed("C08") && matches!(op, "EncryptSubject" | "Encrypt" | "DecryptSubject" | "Decrypt") {
+            Some("C08.operation-panics")
+        } else if ctx.armed("C07") && matches!(op, "AddAssertion" | "AddEnvelope" | "AddBatch" | "AddText" | "AddMany" | "Remove" | "AddRemove" | "Replace" | "ReplaceSubject" | "Wrap" | "Unwrap") {
+            Some("C07.operation-panics")
+        } else if ctx.armed("C05") && op == "Roundtrip" {
+            Some("C05.operation-panics")
+        } else {
+            None
+        }
+    };
     macro_rules! lib {
         ($what:expr, $e:expr) => {
             match guarded(|| $e) {
                 Ok(v) => v,
                 Err(p) => {
                     ctx.violate_sig("C16.no-panic", format!("{} panicked: {}", $what, p), p.clone());
+                    if let Some(id) = promised {
+                        ctx.checked();
+                        ctx.violate_sig(id, format!("{} panicked instead of returning the result the property promises: {}", $what, p), p.clone());
+                    }
                     return StepResult::Skipped;
                 }
             }
@@ -420,6 +447,23 @@ pub fn exec_step(w: &mut World, ctx: &mut Ctx, st: &Step) -> StepResult {
             let d = doc!(a0);
             let payload = w.docs[d].env.tagged_cbor().to_cbor_data();
             let dg = bc_components::Digest::from_data(digest_of(&w.docs[d].env));
+            if a1 % 6 == 5 {
+                // a compressed element from a peer that declares another digest than its content has, placed as the
+                // subject of a node: opening it must fail, or at least never yield a node whose digest disagrees with
+                // its children
+                let wrong = bc_components::Digest::from_data(crate::model::sha(&a2.to_le_bytes()));
+                let r = lib!("try_from(Compressed) / add_assertion / uncompress_subject", Envelope::try_from(bc_components::Compressed::from_uncompressed_data(payload.clone(), Some(wrong))).map(|c| c.add_assertion("held by", 1)).and_then(|n| n.uncompress_subject()).map_err(|e| e.to_string()));
+                if ctx.armed("C04") {
+                    ctx.checked();
+                    ctx.probe("misdeclared-typed-element");
+                    if let Ok(x) = &r {
+                        if let Ok(Err(why)) = guarded(|| wellformed_by_case(x, "")) {
+                            ctx.violate("C04.typed-element", format!("uncompress_subject opened a compressed subject that declares another digest than its content has, and returned a malformed envelope: {}", why));
+                        }
+                    }
+                }
+                return StepResult::Refused;
+            }
             let made: Result<Envelope, String> = lib!("Envelope::try_from(typed element)", match a1 % 5 {
                 0 => Envelope::try_from(bc_components::Compressed::from_uncompressed_data(payload.clone(), Some(dg.clone()))).map_err(|e| e.to_string()),
                 1 => Envelope::try_from(bc_components::Compressed::from_uncompressed_data(payload.clone(), None)).map_err(|e| e.to_string()),
@@ -760,6 +804,15 @@ pub fn exec_step(w: &mut World, ctx: &mut Ctx, st: &Step) -> StepResult {
                     ctx.violate("C03.pattern", format!("{}: visibility pattern differs from the rule: {}", what, e));
                 }
             }
+            // compressing / encrypting IN PLACE through the obscuring API is compression / encryption too: every
+            // addressed element must come out compressed (encrypted), wherever it sits - also inside wrapped content
+            if ind && ((ctx.armed("C13") && action == Obsc::Compressed) || (ctx.armed("C08") && matches!(action, Obsc::Encrypted(_)))) {
+                ctx.checked();
+                if let Err(e) = compare_env(&env, &m, "") {
+                    let id = if ctx.armed("C13") { "C13.in-place" } else { "C08.in-place" };
+                    ctx.violate(id, format!("{}: an addressed element did not come out as the action demands: {}", what, e));
+                }
+            }
             if ctx.armed("C04") && ind && !revealing {
                 // an element the library has just encrypted / compressed in place carries a digest: opened again (the
                 // simulator holds the key), its content must be the element that stood there
@@ -916,6 +969,28 @@ pub fn exec_step(w: &mut World, ctx: &mut Ctx, st: &Step) -> StepResult {
                     if ctx.armed("C02") {
                         let before = w.docs[d].env.clone();
                         check_positions_preserved(ctx, &before, &env, "encrypt_subject");
+                    }
+                    if (ctx.armed("C04") || ctx.armed("C08")) && matches!(subj.obsc(), Obsc::Clear | Obsc::Compressed) {
+                        // what is sealed inside the encrypted element is the canonical encoding of the element that stood
+                        // there (the simulator holds the key and opens the ciphertext itself, without the envelope layer)
+                        if let bc_envelope::base::envelope::EnvelopeCase::Encrypted(msg) = env.subject().case() {
+                            ctx.checked();
+                            let want = w.docs[d].env.subject().tagged_cbor().to_cbor_data();
+                            match guarded(|| key.decrypt(msg).map_err(|e| e.to_string())) {
+                                Ok(Ok(plain)) => {
+                                    if plain != want {
+                                        let id = if ctx.armed("C04") { "C04.sealed-bytes" } else { "C08.sealed-bytes" };
+                                        ctx.violate(id, format!("the plaintext sealed by encrypt_subject is {} but the canonical encoding of the subject is {}", hex(&plain[..plain.len().min(40)]), hex(&want[..want.len().min(40)])));
+                                    }
+                                    ctx.probe("sealed-plaintext-inspected");
+                                }
+                                Ok(Err(e)) => {
+                                    let id = if ctx.armed("C04") { "C04.sealed-bytes" } else { "C08.sealed-bytes" };
+                                    ctx.violate(id, format!("the ciphertext made by encrypt_subject does not open with the key it was made with: {}", e));
+                                }
+                                Err(_) => {}
+                            }
+                        }
                     }
                     let m = match subj.obsc() {
                         Obsc::Clear | Obsc::Compressed => {
